@@ -63,6 +63,8 @@ MODELS = {
     "cylinder@hardsphere": "cylinder@hardsphere",       # a form factor with seven effective-radius modes
     "hayter_msa": "hayter_msa",
     "sphere+cylinder": "sphere+cylinder", "sphere*cylinder": "sphere*cylinder",
+    # mixtures of mixtures, and a model that is a part of one of them
+    "cylinder*sphere": "cylinder*sphere", "sphere*cylinder+cylinder*sphere": "sphere*cylinder+cylinder*sphere",
     "broad_peak": "broad_peak", "_spherepy": "_spherepy",
     "pyplug": os.path.join(ASSETS, "pyplug.py"), "allpd": os.path.join(ASSETS, "allpd.py"),
     "pyscalar": os.path.join(ASSETS, "pyscalar.py"),
@@ -150,6 +152,17 @@ PARS = {
         "pd": {"A_radius_pd": 0.1, "A_radius_pd_n": 5, "B_length_pd": 0.1, "B_length_pd_n": 4},
         "other": {"A_radius": 30.0, "B_radius": 12.0, "B_length": 250.0, "background": 0.0},
     },
+    "cylinder*sphere": {
+        "def": {},
+        "named": {"A_radius": 15.0, "A_length": 200.0, "B_radius": 40.0, "background": 0.01},
+        "pd": {"A_radius_pd": 0.1, "A_radius_pd_n": 4, "B_radius_pd": 0.1, "B_radius_pd_n": 5},
+    },
+    "sphere*cylinder+cylinder*sphere": {
+        "def": {},
+        "named": {"A_radius": 30.0, "B_length": 150.0, "C_radius": 15.0, "C_length": 200.0, "D_radius": 40.0,
+                  "AB_scale": 0.4, "CD_scale": 0.6},
+        "pd": {"A_radius_pd": 0.1, "A_radius_pd_n": 4, "D_radius_pd": 0.1, "D_radius_pd_n": 5, "CD_scale": 0.5},
+    },
     "broad_peak": {
         "def": {},
         "p2": {"peak_pos": 0.05, "width_exp": 3.0, "porod_scale": 2e-5},
@@ -236,7 +249,7 @@ def _add_variants():
 _add_variants()
 _add_control_variants()
 CUTOFFS = [0.0, 0.0, 1e-5, 1e-3]
-DATA_KINDS = ["perfect", "pinhole", "slit", "2d", "2d_xres", "sesans", "sesans_tight"]
+DATA_KINDS = ["perfect", "pinhole", "measured_nan", "slit", "2d", "2d_xres", "sesans", "sesans_tight"]
 SV_MODELS = ["sphere", "cylinder", "core_multi_shell", "sphere@hardsphere", "sphere@hayter_msa", "hardsphere", "hayter_msa",
              "broad_peak", "pyscalar",
              "pyplug", "allpd"]
@@ -392,6 +405,12 @@ def _new_data(kind):
         return sdata.empty_data1D(q)
     if kind == "pinhole":
         return sdata.empty_data1D(q, resolution=0.05)
+    if kind == "measured_nan":
+        # measured data (y, dy present) in which one point went bad after loading: a NaN in y
+        # that the mask, computed when the object was made, does not know about
+        d = sdata.Data1D(q, 100.0 / (1.0 + (40.0 * q) ** 2), dx=0.05 * q, dy=np.full_like(q, 0.1))
+        d.y[7] = np.nan
+        return d
     if kind == "slit":
         d = sdata.empty_data1D(q)
         d.dx = None
@@ -1034,7 +1053,8 @@ def gen_history(w, n_ops):
         pars = w.choice(keys)
         fn = "Fq" if (model in FQ_MODELS and w.random() < 0.3) else "Iq"
         if model in ("sphere@hardsphere", "sphere@hayter_msa", "sphere+cylinder", "sphere*cylinder",
-                     "pyplug@hardsphere", "cylinder@hardsphere") and w.random() < 0.5:
+                     "pyplug@hardsphere", "cylinder@hardsphere", "cylinder*sphere",
+                     "sphere*cylinder+cylinder*sphere") and w.random() < 0.5:
             fn = "IqR"
         ops.append({"op": "call", "k": k["id"], "model": model, "fn": fn, "pars": pars,
                     "cutoff": w.choice(CUTOFFS), "mono": w.random() < 0.1})
@@ -1222,6 +1242,28 @@ def sweep_configs(tier):
                {"op": "make_kernel", "id": "k3", "m": "m1", "q": "q3", "model": model}, dict(call, k="k3"),
                dict(call, k="k2"), {"op": "forget", "x": "k3"}, {"op": "release_model", "m": "m1"}, dict(call, k="k2")]
         out.append({"kind": "history", "ops": ops, "recheck_seed": 6, "family": "two_models_one_library"})
+    # models that share parts (a composite and one of its components, two composites with a
+    # common sub-expression): load and evaluate one, then the other, then the first again
+    related = ["sphere", "cylinder", "hardsphere", "sphere@hardsphere", "cylinder@hardsphere", "sphere+cylinder",
+               "sphere*cylinder", "cylinder*sphere", "sphere*cylinder+cylinder*sphere"]
+    for a in related:
+        for b in related:
+            if a == b:
+                continue
+            ops = []
+            for n_, model in enumerate((a, b, a)):
+                key = "named" if "named" in PARS[model] else "def"
+                if n_ < 2:
+                    ops += [{"op": "load", "id": "m%d" % n_, "model": model, "dtype": "double"},
+                            {"op": "make_kernel", "id": "k%d" % n_, "m": "m%d" % n_, "q": "q3", "model": model}]
+                kid = "k%d" % (n_ % 2)
+                ops.append({"op": "call", "k": kid, "model": model, "fn": "Iq", "pars": key, "cutoff": 0.0, "mono": False})
+            # ... and the first one loaded afresh after the second
+            ops += [{"op": "load", "id": "m2", "model": a, "dtype": "double"},
+                    {"op": "make_kernel", "id": "k2", "m": "m2", "q": "q3", "model": a},
+                    {"op": "call", "k": "k2", "model": a, "fn": "Iq",
+                     "pars": "named" if "named" in PARS[a] else "def", "cutoff": 0.0, "mono": False}]
+            out.append({"kind": "history", "ops": ops, "recheck_seed": 7, "family": "models_sharing_parts"})
     # SasView's P*S built from two instances, then the structure factor on its own again
     for sf, wname in (("hayter_msa", "radius_effective"), ("hardsphere", None)):
         ev = {"op": "sv_eval", "q": "q3", "fn": "evalDistribution"}
